@@ -1086,3 +1086,26 @@ PLAN['C07']['rule'] += (' Stage light_bigblock: a sample of the blocks is applie
                         'light_xorzero: the same behaviours with leaf values whose four 64-bit words cancel out (a|a|b|b).')
 PLAN['C08']['stages'] = (lambda f: (lambda tier, seed: f(tier, seed) + [light('light_xorzero', ['block', 'undoblock'], 5, 3, stack=1, und=1, x='xorzero=1')]))(PLAN['C08']['stages'])
 PLAN['C08']['rule'] += ' Stage light_xorzero: the same behaviours with leaf values whose four 64-bit words cancel out (a|a|b|b).'
+
+
+# --------------------------------------------------------------------------- the pointer forest (nieces, aunts) at spec level
+def pollardalg(tier):
+    q = tier == 'quick'
+    return {'kind': 'spec_check', 'name': 'pollardalg_refines', 'module': 'PollardAlg', 'spec': 'PSpec',
+            'constants': {'MaxN': 7 if q else 8, 'MaxAdds': 3, 'PVariant': '"ok"'}, 'invariants': ['PollardRefines', 'AuntOK'],
+            'timeout': 900 if q else 7200}
+
+
+def pollardalg_neg(tier):
+    return {'kind': 'spec_check', 'name': 'pollardalg_neg', 'module': 'PollardAlg', 'spec': 'PSpec',
+            'constants': {'MaxN': 8, 'MaxAdds': 3, 'PVariant': '"nochildren"'}, 'invariants': ['PollardRefines', 'AuntOK'],
+            'expect_violation': True, 'timeout': 600}
+
+
+for _p in ('C01', 'C10'):
+    PLAN[_p]['stages'] = (lambda f: (lambda tier, seed: [pollardalg(tier), pollardalg_neg(tier)] + f(tier, seed)))(PLAN[_p]['stages'])
+    PLAN[_p]['rule'] += (' Spec level: spec/PollardAlg.tla transcribes the pointer forest (every node holds its aunt and its nieces - the children of '
+                         'its sibling; additions swap nieces and drop empty roots; a deletion moves the sibling up by transferring aunt and nieces, '
+                         'hands the children of the moving node to its new sibling and re-hashes) and TLC checks over all block histories that walking '
+                         'nieces from the roots finds Forest!NodeAt at every position and that every aunt pointer is right; the variant that does '
+                         'not hand the children over is refuted.')
